@@ -133,12 +133,12 @@ pub fn spawn(inv: &Invocation) -> Result<String, String> {
         "arg" if !needs_file => args.push(format!("--evaluate={}", inv.text)),
         "stdin" => stdin = Some(inv.text.as_bytes().to_vec()),
         _ => {
-            let p = scratch.file("formula.txt", inv.text.as_bytes());
+            let p = scratch.file(&cli::Scratch::awkward("formula.txt"), inv.text.as_bytes());
             args.push(p.to_string_lossy().into_owned());
         }
     }
     if let Some(o) = &inv.ordering_file {
-        let p = scratch.file("ordering.txt", o.as_bytes());
+        let p = scratch.file(&cli::Scratch::awkward("ordering.txt"), o.as_bytes());
         args.push("-o".into());
         args.push(p.to_string_lossy().into_owned());
     }
